@@ -9,6 +9,7 @@ Proof. vm_compute. reflexivity. Qed.
 
 (* ---- theorems (types pasted verbatim from Proofs/TimerProofs.v by tools/pin.py) ---- *)
 From NW Require Import Proofs.TimerProofs.
+From NW Require Import Model.Link.
 
 Theorem C20_heartbeat_is_clamped :
   forall (c : tcfg) (req : N), hb_min c <= hb_max c -> hb_min c <= negotiate c req <= hb_max c.
@@ -132,3 +133,10 @@ Theorem C20_refused_attempt_example :
       (TConnected 2050 4000) [(300, IRefused); (900, IRefused); (2060, IObserve)] =
     (TClosed, [ETimeout 2050]).
 Proof. exact C20_refused_keeps_deadline_example. Qed.
+
+(* the S2M / M2S handshakes (Model/Link.v) negotiate the heartbeat with the very same clamp as the C2S handshake *)
+Theorem C20_link_negotiation_is_the_same_clamp :
+  forall (cfg : NW.Model.Link.lcfg) (req : N),
+    NW.Model.Link.lnegotiate_hb cfg req =
+    negotiate {| connect_to := 0; auth_to := 0; hb_min := NW.Model.Link.l_min_keepalive cfg; hb_max := NW.Model.Link.l_keepalive cfg |} req.
+Proof. intros cfg req. reflexivity. Qed.
